@@ -16,6 +16,7 @@ Inductive case08 :=
 | KAll2 (order : N) (hs hps : list N)              (* every cell at [order] (x-major) and at [order-1] *)
 | KAll3 (order : N) (hs hps : list N)
 | KSeg (mn mx order : N) (vs : list N) (o : seg_out) (* segment_to_segment, values ascending *)
+| KOrder (dim order : N) (r : impl_res)              (* HilbertCurve::partition (public), 8 points, 2 parts *)
 | KImplPanic (what : N).                           (* an encoder panicked or hung inside the contract *)
 
 Definition okN (r : res N) (v : N) : bool := match r with Ok a => a =? v | _ => false end.
@@ -105,6 +106,22 @@ Definition eval08 (c : case08) : verdict :=
               | SOk _ => match seg_factor 0 fmn fmx order with OutOfFuel => 10 | _ => 6 end
               | SPanic => 7 | SHang => 8
               end |}
+  | KOrder dim order r =>
+    let mx := if dim =? 2 then max_order_2d else max_order_3d in           (* what the source says *)
+    let spec := if dim =? 2 then spec_max_order_2d else spec_max_order_3d in (* what the property says *)
+    let corr := match order_guard mx order, r with
+                | Ok _, IOk _ => true
+                | Err e, IErr c a b => err_matches e c a b
+                | _, _ => false
+                end in
+    (* accepted range is part of the property: orders <= 32 / 21 work (ids below the part count),
+       every higher order is refused with InvalidOrder { max, actual } *)
+    let prop := match r with
+                | IOk p => (order <=? spec) && forallb (fun i => i <? 2) p
+                | IErr 4 a b => (spec <? order) && (a =? spec) && (b =? order)
+                | _ => false
+                end in
+    {| corr_ok := corr; prop_ok := prop; cls := 11 |}
   | KImplPanic _ => {| corr_ok := false; prop_ok := false; cls := 9 |}
   end.
 
